@@ -98,11 +98,7 @@ struct neighbor
 
 /* exception model (DESIGN 3.7): a ghost flag, `throw E(...)` becomes FSL_THROW(tag); return */
 extern int fsl_thrown;
-#define FSL_THROW(tag) \
-    do                 \
-    {                  \
-        fsl_thrown = (tag); \
-    } while (0)
+#define FSL_THROW(tag) ((void) (fsl_thrown = (tag)))
 
 /* ------------------------------------------------------------ libm (assumed contracts) */
 /* std::nextafter(x, +inf): least double above x.  Contract states only what the
